@@ -647,3 +647,36 @@ def deep_cases(tag, which, quick=True):
                  dict(op="update", g=0, z=z), dict(op="basins", g=0), dict(op="update", g=0, z=z), dict(op="basins", g=0),
                  dict(op="drop", g=0)]
         yield flow_case("%s-valley" % tag, g, steps, timeout_ms=120000)
+
+
+def long_lake_cases(seed, count, tag, bgraph=True):
+    """One inner basin with 70..200 distinct neighbour basins (a long valley between two rows of base levels,
+    every border node its own outer basin), followed along the row by ridges and further inner basins that touch
+    the same late outer basins: per-basin scratch lists of the basin-graph construction far beyond any small
+    capacity.  The object is updated twice (the second field moves the ridges)."""
+    rng = random.Random(seed)
+    for i in range(count):
+        nc = rng.randint(60, 110)
+        conn = rng.choice(["queen", "queen", "queen", "rook"])
+        g = gen.raster(3, nc, conn, [gen.CORE, gen.CORE, gen.FV, gen.FV])
+        steps = [dict(op="new", g=0, ops=[gen.op_single()] if bgraph else [gen.op_single(), gen.op_mst(rng.choice(["kruskal", "boruvka"]), "carve")])]
+        for rep in range(2):
+            ridges = sorted(rng.sample(range(nc * 2 // 3, nc - 2), rng.randint(1, 3)))
+            m = [0] * (3 * nc)
+            tied = rng.random() < 0.5
+            for c in range(nc):
+                for r in (0, 2):
+                    m[r * nc + c] = 1000 if tied else 1000 + (c * 7 + r) % 5
+            start = 0
+            for rg in ridges + [nc]:
+                centre = rng.choice([start, max(start, rg - 1), (start + rg - 1) // 2, rng.randint(start, max(start, rg - 1))])   # the pit: at an end, in the middle, anywhere
+                for c in range(start, rg):
+                    m[nc + c] = 1 + abs(c - centre)
+                if rg < nc:
+                    m[nc + rg] = 5000
+                start = rg + 1
+            steps.append(dict(op="update", g=0, z=dict(k="int", m=m, e=0)))
+            if bgraph:
+                steps += [dict(op="bgraph", g=0, m="kruskal"), dict(op="bgraph", g=0, m="boruvka")]
+        steps.append(dict(op="drop", g=0))
+        yield flow_case("%s-%d-%d" % (tag, seed, i), g, steps, timeout_ms=60000)
